@@ -44,6 +44,8 @@ REGISTRY = {
     "C15": ("vsim.engines.evsim15", "exploration", 1500, 30000, 90, 900),
     "C16": ("vsim.engines.evsim16", "exploration", 3000, 100000, 90, 900),
     "C17": ("vsim.engines.evsim17", "fault_enumeration", 400, 8000, 100, 900),
+    "C14": ("vsim.engines.lssim", "exploration", 1500, 40000, 90, 900),
+    "C18": ("vsim.engines.lssim", "exploration", 600, 12000, 90, 900),
 }
 
 _RF = ("one run = one seeded history: channel configuration (type cell x rate x cadences x mode, start snapped to a "
@@ -55,6 +57,15 @@ _MD = ("one run = one seeded call-level history on one tree: ascending metadata 
        "writer reopen, reader construction, queries on old and new readers, clock jumps; distinct = distinct trace "
        "digests; non-trivial: >= 3 samples in >= 2 files; ")
 RULES = {
+    "C14": "one run = one generated tree (2-5 directories of kinds RF / metadata / legacy / both / none, nested, 0-4 "
+           "subdirectories each with 0-5 files, near-miss and tmp names, strays) x 14 (quick) / 42 queries (start directory x "
+           "recursive x reverse x window on file/subdir times and between x include flags incl. defaults) against a "
+           "set-theoretic model + reverse-set equality; every second run instead advances the lazy ilsdrf generator while 1-3 "
+           "subdirectories vanish / are emptied / gain a file right before they are listed (readdir hook); non-trivial: >= 2 "
+           "channel directories; distinct = distinct trace digests",
+    "C18": "one run = one command (run index mod 3: cp/mv/ln) x generated options (channel lists, --only, -R, ISO time window, "
+           "include flags, --symbolic) on a tree of 1-2 real recordings (+metadata) plus a generated noise tree; destination "
+           "compared with what the equivalent lsdrf selects on a pristine copy; non-trivial: >= 2 files transferred",
     "C17": "one run = method (run index mod 3: move/copy/link) x 1-2 channels of real RF (+metadata) recordings growing over "
            "2-4 rounds x event history derived from the model of the recording with duplication (20%), delay to later rounds "
            "(10%), local reordering, stale very-late duplicates, seeded handler order per event, optional EXDEV on "
